@@ -206,3 +206,29 @@ func Or(cs ...bool) bool {
 	return false
 }
 func Implies(a, b bool) bool { return !a || b }
+
+// IteU8 / IteU32 / IteU64 / IteInt select a value without branching.
+func IteU8(c bool, a, b uint8) uint8 {
+	if c {
+		return a
+	}
+	return b
+}
+func IteU32(c bool, a, b uint32) uint32 {
+	if c {
+		return a
+	}
+	return b
+}
+func IteU64(c bool, a, b uint64) uint64 {
+	if c {
+		return a
+	}
+	return b
+}
+func IteInt(c bool, a, b int) int {
+	if c {
+		return a
+	}
+	return b
+}
